@@ -12,7 +12,7 @@ fn p_bare(t: &mut Tape, cx: &mut Cx) -> Result<(), String> { run_bare(Mode::Prec
 fn p_region(t: &mut Tape, cx: &mut Cx) -> Result<(), String> { run_region(Mode::Precise, t, cx) }
 fn p_guest(t: &mut Tape, cx: &mut Cx) -> Result<(), String> { run_guest(Mode::Precise, t, cx) }
 
-const GEN: &str = "a case = tracked memory at one of three levels (bare VolatileSlice::with_bitmap with RefSlice / Option / RefSlice-at-base / ArcSlice-at-base flavours; MmapRegion built with its own AtomicBitmap; GuestMemoryMmap<AtomicBitmap> of 1..3 regions with per-region page sizes) with page sizes from 1 byte to larger than the region (incl. non powers of two), bitmaps created smaller and grown with enlarge, roots that are the region-wide slice or a window obtained with region.get_slice(o, c) / GuestMemory::get_slice; xen build: the same three levels over emulated Unix / foreign / grant regions incl. regions mapped on demand with the library's own 4096-byte bitmap, bytes observed through the device file + a history of 1..12 operations, each performed through an accessor derived by a chain of 0..3 sub-slicing steps (subslice/offset/split_at/get_slice/array->slice), mixing every write-type operation (write, write_slice, write_obj, atomic store, typed ref/array stores, copy_from, slice-to-slice and element-array-to-slice copies for every element type, stream reads from &[u8]/Cursor/File/chunked readers, a failing descriptor read), read-type operations, rejected requests and bitmap resets; written data is the complement of the current content";
+const GEN: &str = "a case = tracked memory at one of three levels (bare VolatileSlice::with_bitmap with RefSlice / Option / RefSlice-at-base / ArcSlice-at-base flavours; MmapRegion built with its own AtomicBitmap or created by new / from_file / build / build_raw with the bitmap the library makes for it; GuestMemoryMmap<AtomicBitmap> of 1..3 regions with per-region page sizes) with page sizes from 1 byte to larger than the region (incl. non powers of two), bitmaps created smaller and grown with enlarge, roots that are the region-wide slice or a window obtained with region.get_slice(o, c) / GuestMemory::get_slice; xen build: the same three levels over emulated Unix / foreign / grant regions incl. regions mapped on demand with the library's own 4096-byte bitmap, bytes observed through the device file + a history of 1..12 operations, each performed through an accessor derived by a chain of 0..3 sub-slicing steps (subslice/offset/split_at/get_slice/array->slice), mixing every write-type operation (write, write_slice, write_obj, atomic store, typed ref/array stores, copy_from, slice-to-slice and element-array-to-slice copies for every element type, stream reads from &[u8]/Cursor/File/chunked readers, a failing descriptor read), read-type operations, rejected requests and bitmap resets; written data is the complement of the current content";
 
 pub fn property_c05() -> Property {
     Property {
